@@ -152,9 +152,11 @@ def run(ctx):
                     if forms[g] == "point" and "longitude" in res:
                         ctx.oracle(res["longitude"][r] == conf["location"][0] and res["latitude"][r] == conf["location"][1],
                                    "C01.row_integrity", SITE, "particle of a point group has another position", dict(cs, group=g, particle=i))
-                    for nm in ("depth", "w", "age", "stage", "id2", "len", "q"):
+                    for nm in ("depth", "w", "age", "stage", "id2", "len", "q", "label", "flag", "name", "region", "farmid"):
                         if nm not in res:
                             continue
+                        if nm in ("name", "region", "farmid") and forms[g] == "geojson":
+                            continue        # comes with the location (checked by C03)
                         spec = conf.get("attrs", {}).get(nm, conf.get(nm, None))
                         if spec is None:
                             want = 0.0 if nm != "depth" else 0.0
